@@ -1431,8 +1431,8 @@ func (h *harness) account(prefix string) {
 	r.Count("finding_sticky_tf_new_subconn_hits", int64(h.stickyFindingHits))
 	r.Max("max_attempts_in_one_pass", int64(m.maxAttempted))
 	if m.maxAttempted >= 2 && (m.timerFires > 0 || m.passEnds > 0 || m.readies > 0) {
-		r.Nontrivial(fmt.Sprintf("%s/p%d/t%d/e%d/r%d/l%d/rt%d/rc%d/st%d/h%d/f%d", prefix, b3(m.passes), b3(m.timerFires), b3(m.passEnds), b3(m.readies),
-			b3(m.lost), b3(m.reusedTF), b3(m.reusedConnecting), b3(h.staleDeliveries), b3(h.healthDeliveries), len(h.famsSeen)))
+		r.Nontrivial(fmt.Sprintf("%s/p%d/t%d/e%d/r%d/l%d/rt%d/rc%d/st%d/h%d/f%d/rtf%d/ref%d", prefix, b3(m.passes), b3(m.timerFires), b3(m.passEnds), b3(m.readies),
+			b3(m.lost), b3(m.reusedTF), b3(m.reusedConnecting), b3(h.staleDeliveries), b3(h.healthDeliveries), len(h.famsSeen), b3(h.raceTimerFirst), b3(h.raceEventFirst)))
 	}
 }
 
@@ -1747,12 +1747,13 @@ func TestVerifC34(t *testing.T) {
 	}
 	r.Finish(vlib.Spec{
 		Level: "exploration",
-		Rule:  "family hist: PRNG histories (10-79 events) over the real pick_first inside a synctest bubble: resolver updates drawn from a per-case pool of v4/v6/non-IP addresses (1-8 addresses as Addresses or Endpoints, duplicates, overlapping lists so subchannels are reused, 1/12 empty, health listener on/off), resolver errors, legal subchannel transitions (incl. stale ones on shut-down subchannels, final SHUTDOWN, rare CONNECTING->IDLE), virtual-time advances of 50ms..3s that fire the 250ms attempt timer, ExitIdle, Pick on the idle picker, health updates; after each event synctest.Wait() and the Connect sequence (address, virtual time), Shutdown set, reported state, sticky-TF rule and picker are compared with the A61/A62 reference. family order: one update (odd cases: shuffleAddressList) whose attempts are failed one by one so the complete pre-processed order is observed and compared with interleave(dedup(input)) (shuffle: some endpoint/address permutation must explain it), then TF and stickiness. Non-trivial = a pass with >=2 attempted addresses and (a timer-driven attempt or an all-failed pass end or a READY); distinct = bucketed (passes, timer fires, pass ends, readies, losses, reuse kinds, stale deliveries, health, families) resp. (list length, families, duplicates, endpoints, shuffle)",
+		Rule:  "family scen: 5 fixed must-hit scripts judged by the same oracle. family race: 3-6 addresses, attempts in flight, then an event (70% READY of an in-flight subchannel with addresses remaining, else TF / a new list) is delivered at EXACTLY the virtual instant the 250ms attempt timer expires (the script goroutine sleeps until that instant and races with the timer's AfterFunc goroutine for the policy's mutex); the quiescent observation must match one of two reference runs (timer first / event first with the timer cancelled) and nothing may be attempted after the policy processed READY; 1/6 of the hist steps and half of the Close calls with an armed timer are raced the same way. family hist: PRNG histories (10-79 events) over the real pick_first inside a synctest bubble: resolver updates drawn from a per-case pool of v4/v6/non-IP addresses (1-8 addresses as Addresses or Endpoints, duplicates, overlapping lists so subchannels are reused, 1/12 empty, health listener on/off), resolver errors, legal subchannel transitions (incl. stale ones on shut-down subchannels, final SHUTDOWN, rare CONNECTING->IDLE), virtual-time advances of 50ms..3s that fire the 250ms attempt timer, ExitIdle, Pick on the idle picker, health updates; after each event synctest.Wait() and the Connect sequence (address, virtual time), Shutdown set, reported state, sticky-TF rule and picker are compared with the A61/A62 reference. family order: one update (odd cases: shuffleAddressList) whose attempts are failed one by one so the complete pre-processed order is observed and compared with interleave(dedup(input)) (shuffle: some endpoint/address permutation must explain it), then TF and stickiness. Non-trivial = a pass with >=2 attempted addresses and (a timer-driven attempt or an all-failed pass end or a READY); distinct = bucketed (passes, timer fires, pass ends, readies, losses, reuse kinds, stale deliveries, health, families) resp. (list length, families, duplicates, endpoints, shuffle)",
 		Assumptions: []string{
 			"reference model written from gRFC A61/A62 and RFC 8305 §4; an empty resolver update starts a new lifetime (R2 note in DESIGN.md)",
 			"CONNECTING->IDLE of a subchannel (grpc-go #7862) counts as connected-then-lost, as the code documents",
 			"subchannel events are delivered serially (the real channel's serializer); the attempt timer runs on virtual time",
 			"shuffling itself (the distribution) is not judged, only that the result is a legal permutation",
+			"events raced with the attempt timer: both serialisations (timer callback before / after the event) are accepted; which one happened is only counted (race_order_* counters)",
 		},
 		Floor: 40,
 	})
